@@ -356,6 +356,15 @@ func (u *Unit) run(extra func(env *Env)) (err string) {
 				u.runDefers(o.env, u.FI.Decl)
 			}
 			nret++
+			// vacuity: some return must be reachable (a body whose every exit is infeasible under the model would satisfy any
+			// postcondition); one query per returning path, the probe passes if one of them is not refuted
+			{
+				pos := o.pos
+				if !pos.IsValid() {
+					pos = u.FI.Decl.End()
+				}
+				u.coverProbe(o.env, "vacuity/exit-reachable", pos, "some return of the function is reachable")
+			}
 			u.retVals = o.vals
 			if u.retVals == nil {
 				u.retVals = []Value{}
